@@ -661,9 +661,14 @@ class Array(metaclass=MetaArray):
             ll = len(value)
             # compare shapes: len() of a nested value only counts its rows
             shape = get_shape_from_array(value, len(self._shape))
-            compatible = tuple(shape) == tuple(self._shape) or (
-                len(self) == 0 and ll == 0
-            )
+            if hasattr(value, "shape"):
+                # an array value names its shape: every axis has to agree,
+                # also when neither side holds an element
+                compatible = tuple(value.shape) == tuple(self._shape)
+            else:
+                compatible = tuple(shape) == tuple(self._shape) or (
+                    len(self) == 0 and ll == 0
+                )
         if compatible:
             cls = self.__class__
             if cls._is_static_type or is_integer(value):
